@@ -34,6 +34,9 @@ pub enum Ctx {
     IntValueRef,
     /// exactly one of the written values is a value reference, the others are literals
     IntOneRef,
+    /// a component of an inline INTEGER that declares the named numbers its constraint uses (while other types
+    /// declare the same names with other numbers)
+    IntInlineNamed,
     IntNamedRef,
     IntNamedComp,
     OctetComp,
@@ -52,7 +55,7 @@ pub struct Case {
 
 impl Ctx {
     fn is_size(self) -> bool {
-        !matches!(self, Ctx::IntAssign | Ctx::IntComp | Ctx::IntRef | Ctx::IntValueRef | Ctx::IntOneRef | Ctx::IntNamedRef | Ctx::IntNamedComp)
+        !matches!(self, Ctx::IntAssign | Ctx::IntComp | Ctx::IntRef | Ctx::IntValueRef | Ctx::IntOneRef | Ctx::IntInlineNamed | Ctx::IntNamedRef | Ctx::IntNamedComp)
     }
     /// the `signed` argument the generator passes to format_range_annotations for this context
     fn signed_arg(self) -> bool {
@@ -65,6 +68,7 @@ impl Ctx {
             Ctx::IntRef => "constrained type reference",
             Ctx::IntValueRef => "bounds given by value references",
             Ctx::IntOneRef => "one bound / operand given by a value reference, the others literal (type assignment)",
+            Ctx::IntInlineNamed => "bounds given by the named numbers of the inline INTEGER itself (component)",
             Ctx::IntNamedRef => "bounds given by named numbers of the referenced type (assignment)",
             Ctx::IntNamedComp => "bounds given by named numbers of the referenced type (component)",
             Ctx::OctetComp => "OCTET STRING SIZE component",
@@ -153,8 +157,8 @@ impl Cons {
     fn sx(&self, is_size: bool) -> String {
         format!(
             "( chain {} {} {} {} {} {} )",
-            sx_bool(self.marker && !self.paren),
-            sx_bool(self.outer_marker || (self.marker && self.paren)),
+            sx_bool(self.marker && (!self.paren || is_size)),
+            sx_bool(self.outer_marker || (self.marker && self.paren && !is_size)),
             sx_bool(is_size),
             sx_bool(self.all_except),
             elem_sx(&self.first),
@@ -193,7 +197,7 @@ impl Case {
             .join("")
     }
     pub fn asn(&self, i: usize) -> String {
-        let ct = self.constraint_text(match self.ctx { Ctx::IntValueRef => 1, Ctx::IntNamedRef | Ctx::IntNamedComp => 2, _ => 0 });
+        let ct = self.constraint_text(match self.ctx { Ctx::IntValueRef => 1, Ctx::IntNamedRef | Ctx::IntNamedComp | Ctx::IntInlineNamed => 2, _ => 0 });
         match self.ctx {
             Ctx::IntAssign => format!("A{i} ::= INTEGER {ct}"),
             Ctx::IntOneRef => format!("A{i} ::= INTEGER {}", one_ref(&ct, i)),
@@ -201,6 +205,7 @@ impl Case {
             Ctx::IntRef => format!("R{i} ::= Base-Int {ct}"),
             Ctx::IntNamedRef => format!("R{i} ::= Zed-Base {ct}"),
             Ctx::IntNamedComp => format!("S{i} ::= SEQUENCE {{ f Zed-Base {ct} }}"),
+            Ctx::IntInlineNamed => format!("S{i} ::= SEQUENCE {{ f INTEGER {{ {} }} {ct} }}", POINTS.iter().map(|v| format!("{}({v})", named(*v))).collect::<Vec<_>>().join(", ")),
             Ctx::OctetComp => format!("S{i} ::= SEQUENCE {{ f OCTET STRING {ct} }}"),
             Ctx::BitComp => format!("S{i} ::= SEQUENCE {{ f BIT STRING {ct} }}"),
             Ctx::Ia5Comp => format!("S{i} ::= SEQUENCE {{ f IA5String {ct} }}"),
@@ -242,7 +247,7 @@ fn elems(size: bool) -> Vec<Elem> {
 pub fn gen_cases(cfg: &RunCfg) -> Vec<Case> {
     let mut cases: Vec<Case> = Vec::new();
     let ops = [Op::Union, Op::Inter, Op::Except];
-    let vctx = [Ctx::IntAssign, Ctx::IntComp, Ctx::IntRef, Ctx::IntValueRef, Ctx::IntNamedRef, Ctx::IntNamedComp, Ctx::IntOneRef];
+    let vctx = [Ctx::IntAssign, Ctx::IntComp, Ctx::IntRef, Ctx::IntValueRef, Ctx::IntNamedRef, Ctx::IntNamedComp, Ctx::IntOneRef, Ctx::IntInlineNamed];
     let sctx = [Ctx::OctetComp, Ctx::BitComp, Ctx::Ia5Comp, Ctx::SeqOfComp, Ctx::OctetAssign];
     let mut k = 0usize;
     for size in [false, true] {
@@ -268,7 +273,7 @@ pub fn gen_cases(cfg: &RunCfg) -> Vec<Case> {
                     k += 1;
                     cases.push(Case {
                         ctx: ctx(k),
-                        cons: vec![Cons { first: a.clone(), rest: vec![(o, b.clone())], marker: k % 3 == 0, outer_marker: false, all_except: false, paren: !size && k % 6 == 0 }],
+                        cons: vec![Cons { first: a.clone(), rest: vec![(o, b.clone())], marker: k % 3 == 0, outer_marker: false, all_except: false, paren: k % 6 == 0 }],
                         words: k % 7 == 0,
                     });
                 }
@@ -290,7 +295,7 @@ pub fn gen_cases(cfg: &RunCfg) -> Vec<Case> {
             let first = rng.pick(&es).clone();
             let rest: Vec<(Op, Elem)> = (0..nops).map(|_| (*rng.pick(&ops), rng.pick(&es).clone())).collect();
             let marker = rng.chance(1, 4);
-            cons.push(Cons { first, rest, marker, outer_marker: size && rng.chance(1, 10), all_except: false, paren: !size && marker && rng.chance(1, 3) });
+            cons.push(Cons { first, rest, marker, outer_marker: size && rng.chance(1, 10), all_except: false, paren: marker && rng.chance(1, 3) });
         }
         cases.push(Case { ctx, cons, words: rng.chance(1, 8) });
     }
@@ -620,6 +625,7 @@ fn case_from_json(v: &serde_json::Value) -> Option<Case> {
         "IntRef" => Ctx::IntRef,
         "IntValueRef" => Ctx::IntValueRef,
         "IntOneRef" => Ctx::IntOneRef,
+        "IntInlineNamed" => Ctx::IntInlineNamed,
         "IntNamedRef" => Ctx::IntNamedRef,
         "IntNamedComp" => Ctx::IntNamedComp,
         "OctetComp" => Ctx::OctetComp,
